@@ -2931,9 +2931,17 @@ fn write_reference_immediately(
 /// Compute reverse complement of a sequence
 fn reverse_complement_sequence(seq: &[u8]) -> Vec<u8> {
     use crate::kmer::reverse_complement;
+    // Only A/C/G/T (codes 0-3) have a complement; N and the IUPAC ambiguity codes (>= 4) keep their
+    // value, exactly as in the precomputed data_rc and in the decompressor's reverse complement.
     seq.iter()
         .rev()
-        .map(|&base| reverse_complement(base as u64) as u8)
+        .map(|&base| {
+            if base < 4 {
+                reverse_complement(base as u64) as u8
+            } else {
+                base
+            }
+        })
         .collect()
 }
 
